@@ -69,8 +69,6 @@ STACK_LIMIT = 2 * 1024 * 1024
 
 # re-entry chains whose depth is not bounded by the recursion limit but by something else
 R5_EXEMPT = {
-    "minijinja::vm::Executor::perform_super": "super() depth is bounded by the number of block layers of the inheritance "
-                                              "chain (BlockStack::push fails at the top), not by the recursion limit",
     "minijinja::vm::Executor::eval": "top-level entry, not recursive",
 }
 
